@@ -379,7 +379,9 @@ def fieldInst (P : Prog) (hash : Key → String) : Nat → Decl → List Ty → 
     let ty := subst args (chosenTy f)
     match logicalOf f with
     | none =>
-      match kind.overridesFixedName, ty with
+      -- (the macro looks at the field's type as written: a type parameter instantiated with
+      -- `[u8; N]` is not an array to it)
+      match kind.overridesFixedName, chosenTy f with
       | true, .byteArray n =>
         push (plain (.fixed (Name.ofFq (ownedName d kind recordTypeName)) n))
       | _, _ => findOrBuild P hash fuel ty
